@@ -231,8 +231,52 @@ func c06Window(r interface{ Intn(int) int }, b []byte) {
 }
 
 // c06Mutate changes one part of the block; mustFail is set when the mutant must be rejected whatever the targets are
+// c06InfoQueue: block-info fields that every run tries once (id, count-like varint, position, payload bytes), before the
+// random mutations: field ids just beyond the ones the decoder knows, each followed by a varint at the boundaries a
+// length or a count has (within / beyond a cap, sign bit of int64 set, all ones)
+type c06InfoF struct {
+	id, cnt uint64
+	pos, pay int
+}
+
+var c06InfoQueue []c06InfoF
+
+func c06FillInfoQueue() {
+	c06InfoQueue = nil
+	for _, id := range []uint64{3, 4, 127} {
+		for _, cnt := range []uint64{0, 1, 256, 257, 1 << 31, 1 << 62, 1 << 63, 1<<63 + 1, 1<<64 - 4, 1<<64 - 1} {
+			for pos := 0; pos < 2; pos++ {
+				c06InfoQueue = append(c06InfoQueue, c06InfoF{id, cnt, pos, 16})
+			}
+		}
+	}
+}
+
+func c06InfoField(blk *c06Block, f c06InfoF) {
+	b := append(c06UV(f.id), c06UV(f.cnt)...)
+	b = append(b, make([]byte, f.pay)...)
+	switch f.pos {
+	case 0:
+		blk.info = append(b, blk.info...)
+	case 1: // after the valid fields, before the end marker
+		if n := len(blk.info); n > 0 {
+			blk.info = append(append(append([]byte{}, blk.info[:n-1]...), b...), blk.info[n-1])
+		}
+	default: // between them
+		if len(blk.info) > 2 {
+			blk.info = append(append(append([]byte{}, blk.info[:2]...), b...), blk.info[2:]...)
+		}
+	}
+}
+
 func c06Mutate(h *H, blk *c06Block, rev int) (kind, mustFail string) {
 	r := h.R
+	if len(c06InfoQueue) > 0 && blk.info != nil {
+		f := c06InfoQueue[0]
+		c06InfoQueue = c06InfoQueue[1:]
+		c06InfoField(blk, f)
+		return "info.field", ""
+	}
 	pick := func() *c06Col {
 		if len(blk.col) == 0 {
 			return nil
@@ -297,7 +341,15 @@ func c06Mutate(h *H, blk *c06Block, rev int) (kind, mustFail string) {
 		return "body", ""
 	case 10:
 		if blk.info != nil {
-			switch r.Intn(5) {
+			switch r.Intn(7) {
+			case 5, 6:
+				// a field id the decoder may or may not know, followed by a count-like varint at a boundary (as a length,
+				// a row count or a size would be: zero, small, at and beyond the caps, with the sign bit of int / int64
+				// set, all ones) and a few payload bytes; before, between or after the valid fields
+				id := []uint64{3, 4, 5, 6, 7, 8, 16, 127, 128, 255, 1 << 31}[r.Intn(11)]
+				cnt := []uint64{0, 1, 4, 255, 256, 257, 65536, 1 << 31, 1<<31 - 1, 1 << 32, 1 << 62, 1<<63 - 1, 1 << 63, 1<<63 + 1,
+					1<<64 - 8, 1<<64 - 4, 1<<64 - 2, 1<<64 - 1}[r.Intn(18)]
+				c06InfoField(blk, c06InfoF{id, cnt, r.Intn(3), []int{0, 4, 16, 64}[r.Intn(4)]})
 			case 0:
 				blk.info = append(c06UV([]uint64{3, 4, 127, 128, 1 << 40, 1<<64 - 1}[r.Intn(6)]), blk.info...)
 			case 1: // the loop: the same fields over and over
@@ -443,6 +495,7 @@ func runC06Blk(h *H) {
 	if pend != nil {
 		defer pend.Close()
 	}
+	c06FillInfoQueue()
 	for i := 0; i < h.N; {
 		// a valid block of 1..3 catalogue columns
 		k := 1 + h.R.Intn(3)
